@@ -177,6 +177,10 @@ def generate(rng, tier, idx):
             sc['flip'] = [rng.randrange(0, 400), rng.choice(['\x0b', '\x0c', '\x1c', '\x1d', '\x1e', '\x85', '\u2028', '\u2029', '\x00']), 'lf']
     elif rng.random() < 0.1:
         sc['ws'] = rng.randrange(0, 10)
+    if sc['api'] == 'lib' and key != 'other-only' and rng.random() < 0.35:
+        # call history on one environment object: after the scenario's key (and its owner-trust) an unrelated key is
+        # imported as trusted - that must not change how the first one counts
+        sc['second_import'] = True
     if sc['api'] == 'lib':
         # the same message through `gemato openpgp-verify`: alone, from stdin, or beside the genuine message on one command line
         sc['opv'] = rng.choice(['single', 'stdin', 'good-first', 'bad-first'])
@@ -442,6 +446,9 @@ def exec_real(sc):
                             env.import_key(io.BytesIO(keyblob), trust=(sc.get('trust') is None))
                             if sc.get('trust') is not None and fpr:
                                 GS.set_ownertrust(env, fpr, sc['trust'])
+                            if sc.get('second_import'):
+                                env.import_key(io.BytesIO(GS.keydata('other.pub.asc')), trust=True)
+                                counters['real.second-key-imported-as-trusted'] = 1
                         peer2 = GS.RealPeer(faketime=sc.get('peer_time'), fault=fault, missing=(fault == 'missing'))
                         with peer2:
                             r1 = call(lambda: env.verify_file(io.StringIO(signed)))
